@@ -363,3 +363,27 @@ Example rt_double_point_one :
   bzl (fmt_double 15 4591870180066957722) = [48; 46; 49]%N /\
   strtod_exact (bzl (fmt_double 15 4591870180066957722) ++ [44%N]) = Some (false, 1, 10).
 Proof. vm_compute. split; reflexivity. Qed.
+
+(* what the double reader finally delivers: that decimal, rounded to the nearest binary64 value (ties to even; NearSpec.v) *)
+Corollary rt_double_bits bits rest : 0 <= bits < 2 ^ 64 -> (bits mod 2 ^ 63) / 2 ^ 52 < 2047 -> delim rest ->
+  let '(neg, n, d) := dec64 bits in 0 < n ->
+  let '(D, X) := sig_digits 15 n d in
+  exists N' D', 0 < D' /\ N' * valden (X - 14) = valnum D (X - 14) * D' /\
+    strtod_bits (bzl (fmt_double 15 bits) ++ rest) = bits64 neg (nearest64 N' D').
+Proof.
+  intros Hb He Hrest. pose proof (rt_double bits rest Hb He Hrest) as H.
+  destruct (dec64 bits) as [[neg n] d]. intro Hn. specialize (H Hn). destruct (sig_digits 15 n d) as [D X].
+  destruct H as (_ & _ & N' & D' & E & HD & HV). exists N', D'. split; [exact HD|]. split; [exact HV|].
+  unfold strtod_bits. rewrite E. reflexivity.
+Qed.
+Corollary rt_float_bits bits rest : 0 <= bits < 2 ^ 32 -> (bits mod 2 ^ 31) / 2 ^ 23 < 255 -> delim rest ->
+  let '(neg, n, d) := dec32 bits in 0 < n ->
+  let '(D, X) := sig_digits 6 n d in
+  exists N' D', 0 < D' /\ N' * valden (X - 5) = valnum D (X - 5) * D' /\
+    strtof_bits (bzl (fmt_float 6 bits) ++ rest) = bits32 neg (nearest32 N' D').
+Proof.
+  intros Hb He Hrest. pose proof (rt_float bits rest Hb He Hrest) as H.
+  destruct (dec32 bits) as [[neg n] d]. intro Hn. specialize (H Hn). destruct (sig_digits 6 n d) as [D X].
+  destruct H as (_ & _ & N' & D' & E & HD & HV). exists N', D'. split; [exact HD|]. split; [exact HV|].
+  unfold strtof_bits. rewrite E. reflexivity.
+Qed.
